@@ -99,9 +99,11 @@ pub enum RequireAction {
     Fail(String),
 }
 
-/// Native stack the interpreter wants in the worst case (deepest allowed nesting of calls and
-/// expressions).  `run*` use the current thread: the caller guarantees this much stack.
-/// `run*_isolated` spawn a thread with exactly this stack.
+/// Stack size of the threads spawned by the `run*_isolated` variants.  `run*` use the current
+/// thread and the caller guarantees enough stack: measured worst case (deepest nesting the
+/// interpreter accepts before raising its own "stack" error) is < 4 MB in a release build and
+/// < 64 MB in a debug build.  Spawning a thread costs about a millisecond on the build machine,
+/// so bulk callers should run many programs on one big-stack worker thread with `run*`.
 pub const STACK_BYTES: usize = 256 << 20;
 
 /// runs on the current thread (see [`STACK_BYTES`]); `require` is absent (a nil global)
